@@ -49,16 +49,20 @@ def idOfName : String → Option UInt8
 
 /-! ## the derivation loops as written -/
 
-/-- the outer loop shared by Salted and Iterated: `for i := 0; done < len(out); i++ { digest =
-    H(0^i ‖ msg); done += copy(out[done:], digest) }`; `acc` = `out[:done]`.  (A hash that returned
-    no bytes would make the Go loop spin; the model stops.) -/
-def ctxLoop (H : Bytes → Bytes) (msg : Bytes) (outLen : Nat) (i : Nat) (acc : Bytes) : Bytes :=
+/-- the outer loop shared by Salted and Iterated: `for i := 0; done < len(out); i++ { digest = <hash of
+    context i>; done += copy(out[done:], digest) }`; `D i` = the digest of context `i`, `acc` = `out[:done]`.
+    (A hash that returned no bytes would make the Go loop spin; the model stops.) -/
+def ctxLoopF (D : Nat → Bytes) (outLen : Nat) (i : Nat) (acc : Bytes) : Bytes :=
   if acc.length ≥ outLen then acc else
-  let digest := H (zeros i ++ msg)
+  let digest := D i
   if _h : min (outLen - acc.length) digest.length = 0 then acc else
-  ctxLoop H msg outLen (i + 1) (acc ++ digest.take (outLen - acc.length))
+  ctxLoopF D outLen (i + 1) (acc ++ digest.take (outLen - acc.length))
 termination_by outLen - acc.length
 decreasing_by simp only [List.length_append, List.length_take]; simp only [digest] at _h; omega
+
+/-- context `i` hashes `i` zero bytes followed by `msg` -/
+def ctxLoop (H : Bytes → Bytes) (msg : Bytes) (outLen : Nat) (i : Nat) (acc : Bytes) : Bytes :=
+  ctxLoopF (fun i => H (zeros i ++ msg)) outLen i acc
 
 /-- `Salted(out, h, in, salt)` (Simple = Salted with nil salt) -/
 def saltedKey (a : HashAlg) (outLen : Nat) (pw salt : Bytes) : Bytes :=
@@ -81,6 +85,36 @@ def iteratedKey (a : HashAlg) (outLen : Nat) (pw salt : Bytes) (count : Int) : O
   let combined := salt ++ pw
   let cnt := if count < combined.length then combined.length else count.toNat
   (iterWritten combined cnt 0).map fun msg => ctxLoop a.hash msg outLen 0 []
+
+/-! ## streaming form (hash.Hash Reset / Write / Sum as the Go code calls them)
+
+For a hash given as an MD engine (`XC.C14.MD`: RIPEMD-160) the Iterated loops are run exactly as
+written — `h.Reset()`, `i` × `h.Write(zero[:])`, then `h.Write(combined)` / `h.Write(combined[:todo])`
+per pass, `h.Sum` — without ever materialising the `count`-byte message.  Props/C20 proves it equal to
+`iteratedKey` (so the driver may use it for the count bytes that decode to tens of megabytes). -/
+
+/-- the `for written < count` loop on a running digest -/
+def iterStream {σ : Type} (alg : XC.C14.MD σ) (combined : Bytes) (count written : Nat)
+    (d : XC.C14.Digest σ) : Option (XC.C14.Digest σ) :=
+  if written ≥ count then some d else
+  if _h : combined.length = 0 then none else
+  if written + combined.length > count then some (XC.C14.write alg d (combined.take (count - written)))
+  else iterStream alg combined count (written + combined.length) (XC.C14.write alg d combined)
+termination_by count - written
+decreasing_by omega
+
+/-- digest of context `i`: Reset; i zero bytes; the passes; Sum (`[]` if the loop does not terminate
+    or Sum panicked — neither happens, see Props) -/
+def streamCtx {σ : Type} (alg : XC.C14.MD σ) (combined : Bytes) (cnt i : Nat) : Option Bytes :=
+  (iterStream alg combined cnt 0 (XC.C14.write alg (XC.C14.reset alg) (zeros i))).bind fun d =>
+    XC.C14.sum alg d []
+
+def iteratedKeyStream {σ : Type} (alg : XC.C14.MD σ) (outLen : Nat) (pw salt : Bytes) (count : Int) :
+    Option Bytes :=
+  let combined := salt ++ pw
+  let cnt := if count < combined.length then combined.length else count.toNat
+  if combined.length = 0 ∧ 0 < cnt then none else
+  some (ctxLoopF (fun i => (streamCtx alg combined cnt i).getD []) outLen 0 [])
 
 /-! ## Parse / Serialize -/
 
@@ -118,6 +152,13 @@ def Spec.derive (s : Spec) (pw : Bytes) (outLen : Nat) : Option Bytes :=
   | .simple hid => (hashOfId hid).map fun a => saltedKey a outLen pw []
   | .salted hid salt => (hashOfId hid).map fun a => saltedKey a outLen pw salt
   | .iterated hid salt c => (hashOfId hid).bind fun a => iteratedKey a outLen pw salt (decodeCount c)
+
+/-- same function, but RIPEMD-160 iterated specifiers are evaluated by the streaming loops
+    (proved equal in Props/C20: `derive_fast_eq`) -/
+def Spec.deriveFast (s : Spec) (pw : Bytes) (outLen : Nat) : Option Bytes :=
+  match s with
+  | .iterated 3 salt c => iteratedKeyStream XC.C14.Rmd.alg outLen pw salt (decodeCount c)
+  | s => s.derive pw outLen
 
 def Spec.encode : Spec → Bytes
   | .simple hid => [0, hid]
